@@ -224,3 +224,46 @@ def run(ctx):
         sl = fl.slice_local(fl._op_reads(cg[0].args[2]), data_only=True)
         cal = {lp.blocks[n[1]].term.callee.short.split("::")[-1] for n in sl if n[0] == "CALL" and lp.blocks[n[1]].term.callee}
         ctx.require("sorted" in cal and "enumerate" in cal, "S5", "node_map", "node_map = names.sorted().enumerate()", "node ids are not assigned from sorted names (calls: %s)" % sorted(cal), loc_str(cg[0].span))
+    rule_s6(ctx, prog, flows)
+
+
+def rule_s6(ctx, prog, flows):
+    """generate_graph condenses a level: for every member edge (visited in the hash order of get_all_edges) it reads the
+    community edge's current weight with get_edge and stores weight + w with add_edge.  The total is independent of the
+    visiting order only if each add_edge REPLACES the stored edge, i.e. the graph of communities is a single-edge
+    KeepLast graph whatever the caller's specs say; under KeepFirst the first member edge visited wins."""
+    import panic
+    from flow import fmt_desc
+
+    ctx.rule("S6", "Louvain's graph of communities is built with edge_dedupe_strategy = KeepLast on every path (its read-add-replace accumulation over hash-ordered edges is order-independent only then)")
+    gg = prog.one("louvain::generate_graph")
+    gf = flows.of(gg)
+    news = [t for t in gg.calls() if t.callee and t.callee.short.endswith("Graph::new") and t.args]
+    adds = [t for t in gg.calls() if t.callee and t.callee.short.endswith("Graph::add_edge")]
+    if not news or not adds:
+        ctx.anchor_lost("S6", "Graph::new / add_edge in generate_graph")
+        return
+    n = 0
+    for t in news:
+        # the GraphSpecs aggregate(s) behind the argument
+        sl = gf.slice_local(gf._op_reads(t.args[0]), data_only=True)
+        aggs = [s for s in gg.stmts() if s.k == "assign" and s.rv.k == "aggr" and s.rv.j.get("adt", "").endswith("GraphSpecs") and ("L", s.lhs.local) in sl]
+        if not aggs:
+            ctx.violation("S6", "specs|generate_graph", "the specs of the graph of communities are not built in generate_graph (cannot see their dedupe strategy; fail closed)", loc_str(t.span))
+            continue
+        for a in aggs:
+            n += 1
+            fields = a.rv.j.get("fields") or []
+            if "edge_dedupe_strategy" not in fields:
+                ctx.violation("S6", "specs|generate_graph", "GraphSpecs aggregate without an edge_dedupe_strategy field?", loc_str(a.span))
+                continue
+            op = a.rv.ops[fields.index("edge_dedupe_strategy")]
+            vals = set()
+            if op.place is not None and not op.place.proj:
+                for (dbb, d) in gg.assigns_to(op.place.local):
+                    vals.add(fmt_desc(panic.norm(gf.describe_def(d, depth=6))))
+            if not vals:
+                vals.add(fmt_desc(panic.norm(gf.describe(op, depth=6))))
+            ok = all(v.rstrip("{}() ").endswith("EdgeDedupeStrategy::KeepLast") for v in vals)
+            ctx.require(ok, "S6", "specs|generate_graph", "the graph of communities is a KeepLast graph", "the graph of communities gets edge_dedupe_strategy from %s: when it is KeepFirst, the weight of a community edge is that of the member edge that get_all_edges() happens to yield first -- hash order, different from call to call although a seed is given" % sorted(vals), loc_str(a.span))
+    ctx.floor("S6", "community_graph_specs", n, 1)
